@@ -10,6 +10,7 @@ output equals the spec machine's output for every input history of any length.
 """
 from __future__ import annotations
 
+import ast
 import os
 
 import time
@@ -1221,6 +1222,14 @@ class OpHarness:
                 return shared_face(it, None, args[0], True)
         if not (isinstance(f, Closure) and f.module is not None and hasattr(f.node, "name")):
             return NOTSET
+        if f.qualname in ("from_future", "from_future_") and f.module.name in ("reactivex", "reactivex.observable.fromfuture") \
+                and len(args) == 1 and not kwargs and isinstance(args[0], Opaque) and args[0].kind == "future" and ("term" in args[0].attrs or "as_source" in args[0].attrs):
+            # callee contract (bridge.py): the observable of that future - subscribing to it is subscribing to this inner / this operand
+            if "as_source" in args[0].attrs:
+                return args[0].attrs["as_source"]
+            o = self.w.new_source(it, f"from_future({args[0].name})")
+            o.attrs["term"] = args[0].attrs["term"]
+            return o
         c = self.callees.get((f.module.name, f.qualname))
         if c is None:
             return NOTSET
@@ -1250,7 +1259,7 @@ class OpHarness:
         self.cur_spec = None
         self.cur_cells_env = None
         it = Interp(self.loader, ctx, w)
-        if self.callees or getattr(c, "subjects", False):
+        if self.callees or getattr(c, "subjects", False) or self.elements_may_be_futures(it):
             it.call_hook = self.callee_hook
         if self.lockset:
             it.list_hook = self.on_cell_write
@@ -1261,8 +1270,16 @@ class OpHarness:
         params = {}
         for n, k in c.params.items():
             params[n] = make_param(it, ctx, n, k)
+        self.src_objs = {}
+        piped = self.piped_source()
         for sname in c.sources:
-            env.vars[sname] = w.new_source(it, sname)
+            o = self.src_objs[sname] = w.new_source(it, sname)
+            if sname != piped and self.operand_may_be_a_future(sname) and ctx.choose(2, f"{sname} is an observable / a future"):
+                # an operand that is handed over as an ARGUMENT may be a future where the operator asks `is_future`: `from_future` of it (callee
+                # contract, bridge.py) is then the operand the property speaks of
+                env.vars[sname] = Opaque("future", sname, as_source=o)
+            else:
+                env.vars[sname] = o
         env.vars.update(params)
         env.vars["observer"] = Opaque("observer", "observer")
         env.vars["scheduler"] = None if c.scheduler is None else Opaque("scheduler", "scheduler")
@@ -1294,7 +1311,7 @@ class OpHarness:
         for n, v in params.items():
             s.fields[n] = v
         for sname in self.c.sources:
-            s.fields[sname] = self.env.vars[sname]
+            s.fields[sname] = self.src_objs[sname]
         return s
 
     def make_element(self, it, ctx):
@@ -1304,9 +1321,13 @@ class OpHarness:
         if kind == "source":
             # the elements are themselves observables (merge_all, switch_latest, ...)
             name = ctx.fresh_name("inner")
-            o = self.w.new_source(it, name)
             t = ctx.fresh(name + "_ref", "val").t
             ctx.assume(t != smt.NONE)
+            if self.elements_may_be_futures(it) and ctx.choose(2, "the inner is an observable / a future"):
+                # these operators accept futures where they accept observables: `from_future(f)` (under its own contract in bridge.py) is
+                # then the inner sequence, and everything the property says about "the inner" holds for it
+                return Opaque("future", name, term=t)
+            o = self.w.new_source(it, name)
             o.attrs["term"] = t
             return o
         if kind == "notification":
@@ -1318,6 +1339,47 @@ class OpHarness:
                 return it.call(it.module_get(mod, "OnError"), [fresh_exc(ctx, "nerr")])
             return it.call(it.module_get(mod, "OnCompleted"), [])
         raise Unsupported(f"element kind {kind}")
+
+    def piped_source(self):
+        """the operand the operator is APPLIED to (`op(args)(source)`): an observable by construction; None for an n-ary function"""
+        try:
+            e = ast.parse(self.c.call, mode="eval").body
+        except SyntaxError:
+            return None
+        if isinstance(e, ast.Call) and isinstance(e.func, ast.Call) and len(e.args) == 1 and isinstance(e.args[0], ast.Name):
+            return e.args[0].id
+        return None
+
+    def operand_may_be_a_future(self, sname):
+        """does the text of the operator ask `is_future(<this operand>)` - by its name, or of an element of the `*sources` it was passed in?"""
+        node = self.loader.find(self.c.file, self.c.func)
+        asked = {n.args[0].id for n in ast.walk(node) if isinstance(n, ast.Call) and isinstance(n.func, ast.Name) and n.func.id == "is_future"
+                 and len(n.args) == 1 and isinstance(n.args[0], ast.Name)}
+        if sname in asked:
+            return True
+        va = node.args.vararg.arg if isinstance(node, (ast.FunctionDef, ast.AsyncFunctionDef)) and node.args.vararg else None
+        if va is None:
+            return False
+
+        def assigns():
+            for n in ast.walk(node):
+                tgt = n.targets[0] if isinstance(n, ast.Assign) and len(n.targets) == 1 else (n.target if isinstance(n, ast.AnnAssign) else None)
+                if isinstance(tgt, ast.Name) and getattr(n, "value", None) is not None:
+                    yield tgt.id, n.value
+        def is_pack(v):
+            if isinstance(v, ast.Call) and isinstance(v.func, ast.Name) and v.func.id in ("list", "tuple") and len(v.args) == 1 and not v.keywords:
+                v = v.args[0]
+            return isinstance(v, ast.Name) and v.id == va
+        packs = {va} | {t for t, v in assigns() if is_pack(v)}  # `sources = args` / `sources = list(args)`
+        return any(t in asked and isinstance(v, ast.Subscript) and isinstance(v.value, ast.Name) and v.value.id in packs for t, v in assigns())
+
+    def elements_may_be_futures(self, it):
+        """does the text of the operator ask `is_future` anywhere?  (read from the real source on every run)"""
+        r = getattr(self, "_futures", None)
+        if r is None:
+            node = self.loader.find(self.c.file, self.c.func)
+            r = self._futures = any(isinstance(n, ast.Name) and n.id == "is_future" for n in ast.walk(node))
+        return r
 
     def spec_call(self, it, s, name, args):
         m = it.class_lookup(s.cls, name)
